@@ -251,6 +251,35 @@ func collection(c *mon.Case, maxE int) {
 		}
 	}
 
+	// ---- iterator traversal: forwards and backwards over exactly the hooked cell list ----
+	{
+		tr := idx.Iterator()
+		k := 0
+		for tr.Begin(); !tr.Done(); tr.Next() {
+			if k >= len(cells) || tr.CellID() != cells[k] || tr.IndexCell() == nil || tr.Center() != cells[k].Point() {
+				c.Violation("ShapeIndexIterator/forward-traversal/wrong-answer", fmt.Sprintf("forward traversal position %d does not match the index's cell list", k), baseDet())
+				break
+			}
+			k++
+		}
+		if k != len(cells) && tr.Done() {
+			c.Violation("ShapeIndexIterator/forward-traversal/wrong-answer", fmt.Sprintf("forward traversal visited %d cells, the index holds %d", k, len(cells)), baseDet())
+		}
+		tr.End()
+		k = len(cells)
+		for tr.Prev() {
+			k--
+			if k < 0 || tr.CellID() != cells[k] {
+				c.Violation("ShapeIndexIterator/backward-traversal/wrong-answer", "backward traversal does not match the index's cell list", baseDet())
+				break
+			}
+		}
+		if k > 0 && len(cells) > 0 {
+			c.Violation("ShapeIndexIterator/backward-traversal/wrong-answer", fmt.Sprintf("backward traversal stopped %d cells before the first", k), baseDet())
+		}
+		c.Count("iterator.traversals", 1)
+	}
+
 	// ---- iterator location ----
 	it := idx.Iterator()
 	for _, p := range ps {
